@@ -554,6 +554,9 @@ Json::Value genTyped() {
     if (iv > 2147483647LL || iv < -2147483648LL) valid = false;
   }
   c["valid"] = valid;
+  // the same values written as bare JSON numbers / booleans in a configuration
+  // document ("threshold": 80.5): the text of the number must reach the plugin
+  c["via_json"] = P(35);
   return c;
 }
 
@@ -848,10 +851,25 @@ Verdict run(const Json::Value& c) {
     root.rulesets.push_back(toRuleset(rs));
     size_t mark = g.trace.size();
     bool accepted = false;
+    bool viaJson = c.get("via_json", false).asBool();
     try {
-      accepted = Oomd::Config2::compile(root, pcc) != nullptr;
+      if (viaJson) {
+        std::string args;
+        for (auto& k : c["args"].getMemberNames()) {
+          std::string val = c["args"][k].asString();
+          bool bare = k == "l" || k == "ms" || k == "i" || k == "u" || k == "d" || k == "f" || (k == "b" && (val == "true" || val == "false"));
+          args += (args.empty() ? "" : ",") + std::string("\"") + k + "\":" + (bare ? val : jstr(Json::Value(val)));
+        }
+        std::string text = "{\"rulesets\":[{\"name\":\"r\",\"detectors\":[[\"g\",{\"name\":\"vp_typed\",\"args\":{" + args +
+            "}}]],\"actions\":[{\"name\":\"vp_action\",\"args\":{\"id\":\"a\"}}]}]}";
+        Oomd::Config2::JsonConfigParser parser;
+        auto ir = parser.parse(text);
+        accepted = ir && Oomd::Config2::compile(*ir, pcc) != nullptr;
+      } else {
+        accepted = Oomd::Config2::compile(root, pcc) != nullptr;
+      }
     } catch (const std::exception& e) {
-      v.fail(std::string("compile() threw ") + e.what());
+      v.fail(std::string(viaJson ? "parse() / compile() threw " : "compile() threw ") + e.what());
     }
     const Ev* ev = nullptr;
     for (size_t i = mark; i < g.trace.size(); i++)
@@ -869,7 +887,12 @@ Verdict run(const Json::Value& c) {
       if (a2.isMember("i") && ev->j["i"].asInt64() != atoll(a2["i"].asCString())) bad("i", jstr(ev->j["i"]));
       if (a2.isMember("u") && ev->j["u"].asInt64() != atoll(a2["u"].asCString())) bad("u", jstr(ev->j["u"]));
       if (a2.isMember("d") && ev->j["d"].asDouble() != strtod(a2["d"].asCString(), nullptr)) bad("d", jstr(ev->j["d"]));
-      if (a2.isMember("f") && (float)ev->j["f"].asDouble() != strtof(a2["f"].asCString(), nullptr)) bad("f", jstr(ev->j["f"]));
+      if (a2.isMember("f")) {
+        float got = (float)ev->j["f"].asDouble(), want = strtof(a2["f"].asCString(), nullptr);
+        // through a JSON number the text passes a double first: one float ulp of double rounding
+        bool same = got == want || (viaJson && (got == std::nextafterf(want, INFINITY) || got == std::nextafterf(want, -INFINITY)));
+        if (!same) bad("f", jstr(ev->j["f"]));
+      }
       if (a2.isMember("s") && ev->j["s"].asString() != a2["s"].asString()) bad("s", jstr(ev->j["s"]));
       if (a2.isMember("r") && ev->j["r"].asString() != a2["r"].asString()) bad("r", jstr(ev->j["r"]));
       if (a2.isMember("b")) {
@@ -879,7 +902,7 @@ Verdict run(const Json::Value& c) {
       }
     }
     v.nontrivial = c["args"].isMember("l") || c["args"].isMember("ms") || c["args"].isMember("d");
-    v.labels.push_back("typed");
+    v.labels.push_back(viaJson ? "typed_json_numbers" : "typed");
     g.active = false;
     return v;
   }
